@@ -197,8 +197,8 @@ func (r *Run) chunkResources(j *JobRec, i int) (float64, float64) {
 		return 0, 0
 	}
 	h := hash64(r.FCfg.Salt, j.Key(), fmt.Sprint(i))
-	ths := []float64{0, 1, 2, 0.5, 3, -1, 16}
-	mems := []float64{0, 1, 2, 0.25, 5, -2, 64}
+	ths := []float64{0, 1, 2, 0.5, 3, -1, 16, 1.5, 2.5, 4.01}
+	mems := []float64{0, 1, 2, 0.25, 5, -2, 64, 1.5, 6.5, 3.99}
 	return ths[h%uint64(len(ths))], mems[(h/8)%uint64(len(mems))]
 }
 
